@@ -16,6 +16,7 @@ only the statements about the ordered listings root_crates() / children() need t
 and therefore `ops.all okOp` (see Properties/C09.lean).
 -/
 import Proofs.V2ForestQueries
+import Proofs.V2Run
 
 namespace EngineModel.Properties.C07V2
 open EngineModel EngineModel.Db.Chain EngineModel.Db.V2 EngineModel.Spec EngineModel.Spec.Forest
@@ -74,7 +75,7 @@ theorem C07V2_roots_children_agree (ops : List Db.V2.Op) (hok : ops.all okOp = t
     let f := absF d
     (∃ l, qRoots d = .ok l ∧ l.Perm f.roots ∧ ∀ x, x ∈ l ↔ qParent d x = .ok none) ∧
     (∀ c, c ≠ 0 → ∃ l, qChildren d c = .ok l ∧ l.Perm (f.children c) ∧ ∀ x, x ∈ l ↔ qParent d x = .ok (some c)) := by
-  have hC := chInv_run chInv_empty ops hok
+  obtain ⟨_, _, hC⟩ := chInv_hist ops hok
   refine ⟨⟨_, walkIds_eq hC.rk 0, kids_perm_roots hC, fun x => mem_kids_iff hC 0 x⟩, ?_⟩
   intro c hc
   refine ⟨_, walkIds_eq hC.rk c, kids_perm_children hC hc, fun x => ?_⟩
